@@ -64,7 +64,7 @@ def foreign_node(kind, k, enclosing_cls):
         if nm is None:
             return None
         e = ET.Element(nm)
-        e.text = ["x", "12.5", "a &amp; b".replace("&amp;", "&"), "20200101"][k % 4]
+        e.text = ["x", "12.5", "a &amp; b", "20200101"][k % 4]
         return e, "unknown-leaf"
     if kind == 1:
         nm = pick(UNKNOWN_LEAF)
@@ -142,7 +142,8 @@ def et_to_node(elem, sgml, counter):
         counter[0] += 1
         from pbt.core import reftypes as R
 
-        return {"t": elem.tag, "d": R.escape_min(elem.text), "end": not (sgml and counter[0] % 2 == 0), "ga": "\n" if counter[0] % 3 == 0 else ""}
+        # element text of harness-built trees is already escaped (parser-like)
+        return {"t": elem.tag, "d": elem.text, "end": not (sgml and counter[0] % 2 == 0), "ga": "\n" if counter[0] % 3 == 0 else ""}
     return {"t": elem.tag, "c": [et_to_node(c, sgml, counter) for c in elem], "g": "", "ga": "\n" if len(elem) else ""}
 
 
